@@ -566,14 +566,19 @@ theorem segsFor_merged (c : Cls) (T : Table) {ts : List (BP.Tok Atom)} {segs : L
   | nil => exact F2.nil
   | cons h1 _ ih => rw [List.flatMap_cons]; exact F2.append (segFor_merged c T _ _ h1) ih
 
-/-- **an expression written with any names of its licenses**: for a table in which no stored name of
-    several words contains an operator word or a parenthesis and no name reads as a bare operator, a text
+/-- **an expression written with any names of its licenses, any table**: the proviso of the property as a
+    premise on the text — no occurrence of a stored name reaches across the boundary of a segment
+    (`hwithin`: every match of the scan starts and ends inside one segment). Then, for every table in
+    which no name reads as a bare operator, a text
     whose words fall into the segments of a skeleton — operators and parentheses in any letter case,
     every license as any of its stored names in any case and spacing, an unknown license as words that
     occur in no stored name — parses to what the skeleton parses to -/
-theorem parse_spelled (c : Cls) (hc : ClsOK c) (T : Table) (hop : OpWordFree c T) (hkw : KwOwned c T)
+theorem parse_spelled_within (c : Cls) (hc : ClsOK c) (T : Table) (hkw : KwOwned c T)
     (ts : List (BP.Tok Atom)) (segs : List (Seg TVal)) (hs : SegsFor c T ts segs) (text : Str)
-    (hcov : segPieces segs = wordPieces c text) (e : Expr Atom) (hparse : BP.parse ts = .ok e) :
+    (hcov : segPieces segs = wordPieces c text)
+    (hwithin : ∀ k ∈ (buildTrie c T).iter c text true, k.val.isSome = true →
+      ∃ sg ∈ segs, ∃ p ∈ sg.1, ∃ p' ∈ sg.1, k.s = p.start ∧ k.e = p'.stop)
+    (e : Expr Atom) (hparse : BP.parse ts = .ok e) :
     parseFull c T false false false text = .ok e := by
   have hn := noSymSym_of_pairs _ (BP.parse_pairs _ e hparse)
   have hkn := buildTrie_knownOK c T
@@ -585,7 +590,7 @@ theorem parse_spelled (c : Cls) (hc : ClsOK c) (T : Table) (hop : OpWordFree c T
     · exact hg
     · exact hg
   have hok : SegsOK c (buildTrie c T) text segs := by
-    refine ⟨hcov, hsegne, ?_, ?_, within_of_table c T hop ts segs hs hn text hcov⟩
+    refine ⟨hcov, hsegne, ?_, ?_, hwithin⟩
     · intro g v hsg
       rcases hshape _ hsg with ⟨p, k, heq, hfold⟩ | ⟨g', s, heq, hg, hown⟩ | ⟨g', heq, _, _⟩
       · simp only [Prod.mk.injEq, Option.some.injEq] at heq
@@ -652,6 +657,15 @@ theorem parse_spelled (c : Cls) (hc : ClsOK c) (T : Table) (hop : OpWordFree c T
       | true => exact absurd (blank_no_words c hc text hb) hne
   unfold parseFull parseFullW
   simp only [hnb, Bool.false_eq_true, ↓reduceIte, hl, hts, (BP.parseAt_ok _ _).mpr hparse]
+
+/-- … in particular for a table in which no stored name of several words contains an operator word or a
+    parenthesis: there the proviso holds for every text -/
+theorem parse_spelled (c : Cls) (hc : ClsOK c) (T : Table) (hop : OpWordFree c T) (hkw : KwOwned c T)
+    (ts : List (BP.Tok Atom)) (segs : List (Seg TVal)) (hs : SegsFor c T ts segs) (text : Str)
+    (hcov : segPieces segs = wordPieces c text) (e : Expr Atom) (hparse : BP.parse ts = .ok e) :
+    parseFull c T false false false text = .ok e :=
+  parse_spelled_within c hc T hkw ts segs hs text hcov
+    (within_of_table c T hop ts segs hs (noSymSym_of_pairs _ (BP.parse_pairs _ e hparse)) text hcov) e hparse
 
 /-! ### the premises on the table, decidably (the driver evaluates these on the tables of a run) -/
 
